@@ -144,7 +144,7 @@ func TestC01Rapid(t *testing.T) {
 	runRapid(t, 150, 5000, func(rt *rapid.T) {
 		c := rec.Begin()
 		w := newL1World(rt, l1Cfg{weights: c01Weights, maxBridges: 4, withFee: true, badCfgProb: 5, manyBridges: true,
-			periods: []time.Duration{time.Second, time.Minute, time.Hour}})
+			periods: []time.Duration{time.Second, time.Minute, time.Hour, 1<<63 - 1}})
 		// start with one or two bridges so that most histories are about several bridges
 		for i := rapid.IntRange(1, 2).Draw(rt, "initial"); i > 0; i-- {
 			w.opCreate(rt, true)
@@ -152,7 +152,17 @@ func TestC01Rapid(t *testing.T) {
 		depositOn, claimOn := map[uint64]bool{}, map[uint64]bool{}
 		shape := ""
 		pre := w.frame()
+		bulkAt := -1
+		if rapid.IntRange(0, 19).Draw(rt, "bulk") == 0 {
+			bulkAt = rapid.IntRange(2, 25).Draw(rt, "bulkAt")
+		}
 		repeatSteps(rt, 40, func(i int) {
+			if i == bulkAt && len(w.ids) > 0 {
+				// a long run of pending outputs (more than any per-message bound a handler might have)
+				w.bulkPropose(rt, w.bridges[w.ids[0]], rapid.SampledFrom([]int{120, 257, 300}).Draw(rt, "bulkN"))
+				c.Class("bridge-with-a-long-run-of-pending-outputs")
+				pre = w.frame()
+			}
 			st := w.step(rt)
 			post := w.frame()
 			if err := c01Check(w, st, pre, post); err != nil {
